@@ -406,6 +406,7 @@ theorem tick_inv (E : Env) (s : St) (tp : Tp) (h : Inv E s) (hw : Wf E s tp) :
 /-- events with their well-formedness condition -/
 def EvWf (E : Env) (s : St) : Event → Prop
   | .tick tp => Wf E s tp
+  | .crash _ _ => False          -- C14 quantifies over runs without mid-tick crashes (those are C15)
   | _ => True
 
 theorem step_inv (E : Env) (s : St) (ev : Event) (h : Inv E s) (hw : EvWf E s ev) : Inv E (step E s ev) := by
@@ -415,6 +416,7 @@ theorem step_inv (E : Env) (s : St) (ev : Event) (h : Inv E s) (hw : EvWf E s ev
   | register k p => exact register_inv E s k p h
   | expire e => exact inv_updOm E s e _ expire_mono h
   | restart => exact h
+  | crash tp p => exact hw.elim
 
 /-- runs: every event is well formed in the state it meets -/
 def RunWf (E : Env) : St → List Event → Prop
